@@ -184,6 +184,26 @@ func TestVerifC07Websocket(t *testing.T) {
 		{name: "ws.server.deflate", gen: vC07WsStream(true, true), run: func(b []byte) bool { return vC07WsRun(b, true, true, 0) }},
 		{name: "ws.client.deflate", gen: vC07WsStream(false, true), run: func(b []byte) bool { return vC07WsRun(b, false, true, 0) }},
 		{name: "ws.client.limit", gen: vC07WsStream(false, false), run: func(b []byte) bool { return vC07WsRun(b, false, false, 100) }},
+		// after-error reuse of one Conn: reads repeated after the first failure (the API documents a
+		// panic only at the 1000th repeat: 20 repeats here), writes and Close on the failed connection
+		{name: "ws.aftererror", gen: func(r *vRng) []byte {
+			return append(vC07Damage(r, vC07WsStream(false, false)(r)), vC07WsStream(false, false)(r)...)
+		}, run: func(b []byte) bool {
+			c := newConn(&vC07Conn{r: bytes.NewReader(b)}, false, 256, 256)
+			c.SetReadLimit(4096)
+			errs := 0
+			for i := 0; i < 100000 && errs < 20; i++ {
+				if _, _, err := c.ReadMessage(); err != nil {
+					errs++
+				}
+			}
+			_, _, _ = c.NextReader()
+			_ = c.WriteMessage(TextMessage, []byte("x"))
+			_ = c.WriteControl(PingMessage, nil, time.Now().Add(time.Second))
+			_ = c.Close()
+			_, _, e := c.ReadMessage()
+			return e != nil
+		}},
 		{name: "ws.nextreader", gen: vC07WsStream(false, false), run: func(b []byte) bool {
 			// NextReader with partial reads of each message
 			c := newConn(&vC07Conn{r: bytes.NewReader(b)}, false, 256, 256)
